@@ -86,6 +86,10 @@ package db
 //@   modifies heap, lastTx, writesOutsideTx, stmtFail, insertedRows, lastInsertedRow
 //@   ensures[success-means-the-certificates-row-was-written] result == nil ==> insertedRows == old(insertedRows) + 1 && lastInsertedRow != nil && certificate.Header != nil && lastInsertedRow.Height == certificate.Header.Height && lastInsertedRow.CertificateID == certificate.Header.CertificateID && lastInsertedRow.Status == certificate.Header.Status && lastInsertedRow.RetryCount == certificate.Header.RetryCount && lastInsertedRow.FromBlock == certificate.Header.FromBlock && lastInsertedRow.ToBlock == certificate.Header.ToBlock && lastInsertedRow.NewLocalExitRoot == certificate.Header.NewLocalExitRoot
 //@   ensures[at-most-one-row] insertedRows <= old(insertedRows) + 1
+// the row being replaced is looked up inside the transaction, for the height of the certificate being saved, and the
+// row found there is the one moved / deleted
+//@   assert call:getCertificateByHeight arg0 == tx && arg1 == certInfo.Height
+//@   assert call:moveCertificateToHistoryOrDelete arg1 == tx && arg2 == certInDB
 //@   ensures[every-statement-inside-the-transaction] writesOutsideTx == old(writesOutsideTx)
 //@   ensures[all-or-nothing] lastTx != old(lastTx) ==> ((result == nil ==> txState(lastTx) == 1) && (result != nil ==> txState(lastTx) == 2))
 //@   ensures[no-transaction-no-success] lastTx == old(lastTx) ==> result != nil
